@@ -10,6 +10,7 @@ operations (`view_cases`), preservation of the invariant (`inv_step`), the theor
 -/
 import Halo.Inv
 import Halo.Proofs.Flows
+import Halo.Proofs.Allow
 import Halo.Proofs.C03
 import Halo.Proofs.C13
 
@@ -571,6 +572,115 @@ theorem hook_swap_view {w w' : World} {t s p amt : Nat} {offer : Asset} {a : Nat
     simp only [swapsOn, hP]
     exact List.mem_singleton.mpr rfl
 
+/-! ### `SendFrom`: the same hooks, the tokens pulled from an owner with the spender's allowance -/
+
+/-- an account that has granted no allowance is not the owner of a successful `TransferFrom` -/
+theorem owner_ne_transferFrom {w w1 : World} {t sp o d a z : Nat}
+    (hn : ∀ T, w.tok t = some T → ∀ s, T.allow z s = none)
+    (h : tokTransferFrom w t sp o d a = .ok w1) : o ≠ z := by
+  rintro rfl
+  obtain ⟨T, al, hT, hal, _⟩ := tokTransferFrom_ok h
+  have := hn T hT sp
+  rw [hal] at this
+  cases this
+
+theorem owner_ne_burnFrom {w w1 : World} {t sp o a z : Nat}
+    (hn : ∀ T, w.tok t = some T → ∀ s, T.allow z s = none)
+    (h : tokBurnFrom w t sp o a = .ok w1) : o ≠ z := by
+  rintro rfl
+  obtain ⟨T, al, hT, hal, _⟩ := tokBurnFrom_ok h
+  have := hn T hT sp
+  rw [hal] at this
+  cases this
+
+theorem hookFrom_swap_view {w w1 w' : World} {t sp o p amt : Nat} {offer : Asset} {a : Nat} {b ms tt : Option Nat}
+    {out : Out} {a0 a1 : Asset} {lp : Nat} (hinv : PairInv w p a0 a1 lp) (hop : o ≠ p)
+    (h1 : tokTransferFrom w t sp o p amt = .ok w1)
+    (h2 : pairReceive w1 p t sp amt (.swap offer a b ms tt) = .ok (w', out)) :
+    ViewRes w w' (.tokSendFrom t sp o p amt (.swap offer a b ms tt)) p a0 a1 lp := by
+  obtain ⟨P, hP, e0, e1, e2⟩ := hinv.pair
+  obtain ⟨P', hP', ha, _, hof, w2, o2, hsw, he⟩ := C14.pairReceive_swap h2
+  rw [(tokTransferFrom_same h1).1.pair, hP] at hP'
+  injection hP' with hP'
+  subst hP'
+  simp only [Prod.mk.injEq] at he
+  obtain ⟨rfl, _⟩ := he
+  subst e0 e1 e2
+  subst hof ha
+  have c1 : bal w1 (.token t) p = bal w (.token t) p + a := by
+    rw [bal_tokTransferFrom h1, if_pos rfl, if_pos rfl, if_neg (Ne.symm hop)]
+  have c5 : ∀ b, b ≠ .token t → bal w1 b p = bal w b p := by
+    intro b hb
+    rw [bal_tokTransferFrom h1, if_neg hb]
+  rcases swap_on_p_exact (w := w) hinv.distinct hsw c1 c5 with ⟨g, hs⟩ | hw
+  · exact Or.inl ⟨g, by rw [hs, supply_tokTransferFrom h1]⟩
+  · refine Or.inr (Or.inr ⟨(p, bal w (.token t) p, bal w (P.other (.token t)) p, a), ?_, rfl, hw⟩)
+    simp only [swapsOn, hP]
+    exact List.mem_singleton.mpr rfl
+
+theorem withdrawFrom_view {w w1 w' : World} {t sp o p amt : Nat} {out : Out} {a0 a1 : Asset} {lp : Nat}
+    (hinv : PairInv w p a0 a1 lp) (hol : o ≠ lp) (hsp : sp ≠ p)
+    (h1 : tokTransferFrom w t sp o p amt = .ok w1)
+    (h2 : pairReceive w1 p t sp amt .withdraw = .ok (w', out)) :
+    NonDecr (viewOf w p a0 a1 lp) (viewOf w' p a0 a1 lp) := by
+  obtain ⟨P, hP, e0, e1, e2⟩ := hinv.pair
+  subst e0 e1 e2
+  obtain ⟨P', hP', ht, w2, x0, x1, hpw, he⟩ := C14.pairReceive_withdraw h2
+  rw [(tokTransferFrom_same h1).1.pair, hP] at hP'
+  injection hP' with hP'
+  subst hP'
+  simp only [Prod.mk.injEq] at he
+  obtain ⟨rfl, _⟩ := he
+  subst ht
+  obtain ⟨_, hx0, hx1, w3, w4, hp0, hp1, hb⟩ := Liquidity.pairWithdraw_ok hpw
+  have hl0 := hinv.notLp0
+  have hl1 := hinv.notLp1
+  have hne := hinv.distinct
+  have hne' : P.a1 ≠ P.a0 := Ne.symm hne
+  have T := bal_tokTransferFrom h1
+  have Q0 := fun b z => (bal_payout hp0 b z).2.2
+  have Q1 := fun b z => (bal_payout hp1 b z).2.2
+  have B := bal_tokBurn hb
+  have sT := supply_tokTransferFrom h1
+  have s0 := supply_payout hp0
+  have s1 := supply_payout hp1
+  have sB := supply_tokBurn hb
+  obtain ⟨ha0, _, hbs⟩ := Liquidity.tokBurn_le hb
+  obtain ⟨U, al, hU, _, _, hleU, _⟩ := tokTransferFrom_ok h1
+  have hab : amt ≤ bal w (.token P.lp) o := by simp [bal, hU, hleU]
+  have hx0le := (bal_payout hp0 P.a0 p).2.1
+  have hx1le := (bal_payout hp1 P.a1 p).2.1
+  have r0 : bal w1 P.a0 p = bal w P.a0 p := by rw [T, if_neg hl0]
+  have r1 : bal w1 P.a1 p = bal w P.a1 p := by rw [T, if_neg hl1]
+  have r1' : bal w3 P.a1 p = bal w P.a1 p := by rw [Q0, if_neg hne', r1]
+  rw [r0, sT] at hx0
+  rw [r1, sT] at hx1
+  rw [s1, s0, sT] at hbs
+  rw [r0] at hx0le
+  rw [r1'] at hx1le
+  have ha1 : 1 ≤ amt := Nat.pos_of_ne_zero ha0
+  have c0 := Halo.C04.refund_bounds hx0 ha1 hbs
+  have c1 := Halo.C04.refund_bounds hx1 ha1 hbs
+  simp only [Spec.c04, Bool.and_eq_true, decide_eq_true_eq] at c0 c1
+  have hpos : 0 < supply w P.lp := by omega
+  have hres := hinv.reserved hpos
+  have hsum := hinv.sumOK [o, P.lp] (by simp [hol])
+  simp only [sumBal, List.map_cons, List.map_nil, List.sum_cons, List.sum_nil] at hsum
+  have ha : amt < supply w P.lp := by omega
+  have nd := C03.withdraw_nondecr c0.1 c1.1 ha
+  have hps : p ≠ sp := Ne.symm hsp
+  have f0 : bal w' P.a0 p = bal w P.a0 p - x0 := by
+    simp only [B, Q1, Q0, T]
+    simp [hl0, hps, hne]
+  have f1 : bal w' P.a1 p = bal w P.a1 p - x1 := by
+    simp only [B, Q1, Q0, T]
+    simp [hl1, hps, hne']
+  have fS : supply w' P.lp = supply w P.lp - amt := by
+    rw [sB, if_pos rfl, s1, s0, sT]
+  show NonDecr (bal w P.a0 p, bal w P.a1 p, supply w P.lp) (bal w' P.a0 p, bal w' P.a1 p, supply w' P.lp)
+  rw [f0, f1, fS]
+  exact nd
+
 /-! ### every operation -/
 
 theorem view_cases {name : Asset → String} {w w' : World} {op : Op} {out : Out} {p : Nat} {a0 a1 : Asset} {lp : Nat}
@@ -708,6 +818,55 @@ theorem view_cases {name : Asset → String} {w w' : World} {op : Op} {out : Out
     intro x0 x1 req c ld np nl e
     have e' : Op.factory s f m = .factory s f (.createPair x0 x1 req c ld np nl) := by rw [e]
     exact ⟨freshOK_pair hv.fresh e', freshOK_tok hv.fresh e', trivial⟩
+  | tokTransferFrom t sp o d a =>
+    simp only [exec, bind_ok_iff, pure_ok_iff, Prod.mk.injEq] at h
+    obtain ⟨w1, h1, rfl, _⟩ := h
+    have hop := owner_ne_transferFrom (z := p) (fun T hT s => (hinv.noAllow t T hT s).1) h1
+    exact calm hinv (Tr.xferFrom (S := fun z => z = o) (Mn := fun _ => False) (N := fun _ => False) rfl h1)
+      (fun e => hop e.symm) hF
+  | tokBurnFrom t sp o a =>
+    simp only [exec, bind_ok_iff, pure_ok_iff, Prod.mk.injEq] at h
+    obtain ⟨w1, h1, rfl, _⟩ := h
+    have hop := owner_ne_burnFrom (z := p) (fun T hT s => (hinv.noAllow t T hT s).1) h1
+    exact calm hinv (Tr.burnFrom (S := fun z => z = o) (Mn := fun _ => False) (N := fun _ => False) rfl h1)
+      (fun e => hop e.symm) hF
+  | tokDecAllow t o sp a =>
+    simp only [exec, bind_ok_iff, pure_ok_iff, Prod.mk.injEq] at h
+    obtain ⟨w1, h1, rfl, _⟩ := h
+    exact calm hinv (Tr.decAllow (S := fun _ => False) (Mn := fun _ => False) (N := fun _ => False) h1) hF hF
+  | tokSendFrom t sp o d amt hk =>
+    simp only [exec] at h
+    obtain ⟨w1, h1, h2⟩ := tokSendFrom_ok h
+    have hop := owner_ne_transferFrom (z := p) (fun T hT s => (hinv.noAllow t T hT s).1) h1
+    have hol := owner_ne_transferFrom (z := lp) (fun T hT s => (hinv.noAllow t T hT s).2) h1
+    rcases h2 with ⟨hd, h2⟩ | ⟨hdn, hdr, _, h2⟩
+    · by_cases hdp : d = p
+      · subst hdp
+        cases hk with
+        | swap offer a b ms tt => exact hookFrom_swap_view hinv hop h1 h2
+        | withdraw => exact Or.inr (Or.inl ⟨fun e => e, withdrawFrom_view hinv hol hsp h1 h2⟩)
+        | routerOps ops mn tt => exact absurd h2 C14.pairReceive_routerOps
+        | garbage => exact absurd h2 C14.pairReceive_garbage
+      · refine calm hinv ((Tr.xferFrom (S := fun z => z = o ∨ z = d) (Mn := fun _ => False)
+          (N := fun _ => False) (Or.inl rfl) h1).trans (pairReceive_tr h2 (Or.inr rfl))) ?_ hF
+        rintro (e | e)
+        · exact hop e.symm
+        · exact hdp e.symm
+    · cases hk with
+      | routerOps ops mn tt =>
+        have tr0 : Tr (fun z => z = o) (fun _ => False) (fun _ => False) w w1 := .xferFrom rfl h1
+        have h2' : routerSwapOps name w1 sp ops mn tt = .ok w' := h2
+        refine route_res hinv tr0 (fun e => hop e.symm) hF h2' ?_
+        have hdn' : (w.pair d).isNone = true := by
+          cases hh : w.pair d with
+          | none => rfl
+          | some Q => simp [hh] at hdn
+        simp only [swapsOn]
+        rw [if_pos ⟨hdn', hdr⟩]
+        simp only [h1]
+      | swap offer a b ms tt => cases h2
+      | withdraw => cases h2
+      | garbage => cases h2
 
 /-! ### the invariant -/
 
@@ -725,10 +884,44 @@ theorem lp_not_src {w : World} {op : Op} {p : Nat} {a0 a1 : Asset} {lp : Nat}
     | some Q => rw [hq] at hn; cases hn
   · exact hinv.lpNotRouter e
 
+/-- an account that has granted no allowance is not the owner whose allowance a successful `…From` operation spends -/
+theorem not_owner_of_noAllow {name : Asset → String} {w w' : World} {op : Op} {out : Out} {z : Nat}
+    (hn : ∀ t T, w.tok t = some T → ∀ s, T.allow z s = none) (h : exec name w op = .ok (w', out)) :
+    z ∉ ownersOf op := by
+  cases op with
+  | tokTransferFrom t sp o d a =>
+    simp only [exec, bind_ok_iff, pure_ok_iff, Prod.mk.injEq] at h
+    obtain ⟨w1, h1, rfl, _⟩ := h
+    simp only [ownersOf, List.mem_singleton]
+    exact Ne.symm (owner_ne_transferFrom (hn t) h1)
+  | tokBurnFrom t sp o a =>
+    simp only [exec, bind_ok_iff, pure_ok_iff, Prod.mk.injEq] at h
+    obtain ⟨w1, h1, rfl, _⟩ := h
+    simp only [ownersOf, List.mem_singleton]
+    exact Ne.symm (owner_ne_burnFrom (hn t) h1)
+  | tokSendFrom t sp o d a hk =>
+    simp only [exec] at h
+    obtain ⟨w1, h1, _⟩ := tokSendFrom_ok h
+    simp only [ownersOf, List.mem_singleton]
+    exact Ne.symm (owner_ne_transferFrom (hn t) h1)
+  | bankSend s d cs => simp [ownersOf]
+  | tokTransfer t s d a => simp [ownersOf]
+  | tokSend t s d a hk => simp [ownersOf]
+  | tokIncAllow t o s a => simp [ownersOf]
+  | tokBurn t s a => simp [ownersOf]
+  | pair s p f m => simp [ownersOf]
+  | router s f m => simp [ownersOf]
+  | factory s f m => simp [ownersOf]
+  | tokDecAllow t o s a => simp [ownersOf]
+
 theorem lp_keep {name : Asset → String} {w w' : World} {op : Op} {out : Out} {p : Nat} {a0 a1 : Asset} {lp : Nat}
     (hinv : PairInv w p a0 a1 lp) (hv : ValidOp w op) (h : exec name w op = .ok (w', out)) :
-    bal w (.token lp) lp ≤ bal w' (.token lp) lp :=
-  (Liquidity.good_exec hv.fresh h).keep lp lp (lp_not_src hinv hv)
+    bal w (.token lp) lp ≤ bal w' (.token lp) lp := by
+  refine (Liquidity.good_exec hv.fresh h).keep lp lp ?_
+  rintro ((e | e) | e)
+  · exact lp_not_src hinv hv (Or.inl e)
+  · exact not_owner_of_noAllow (fun t T hT s => (hinv.noAllow t T hT s).2) h e
+  · exact lp_not_src hinv hv (Or.inr e)
 
 /-- a positive LP supply stays positive: the reserved unit cannot be spent -/
 theorem pos_step {name : Asset → String} {w w' : World} {op : Op} {out : Out} {p : Nat} {a0 a1 : Asset} {lp : Nat}
@@ -755,7 +948,7 @@ theorem inv_step {name : Asset → String} {w w' : World} {op : Op} {out : Out} 
       obtain ⟨U', hU', _⟩ := st.toks t U hU
       rw [hU']; rfl
   refine ⟨?_, hinv.distinct, hinv.notLp0, hinv.notLp1, ?_, fun t e => live t (hinv.live0 t e),
-    fun t e => live t (hinv.live1 t e), good.sum lp hinv.sumOK, ?_, ?_, ?_, ?_⟩
+    fun t e => live t (hinv.live1 t e), good.sum lp hinv.sumOK, ?_, ?_, ?_, ?_, ?_⟩
   · obtain ⟨P', hP', f0, f1, f2⟩ := st.pairSome p P hP
     exact ⟨P', hP', f0.trans e0, f1.trans e1, f2.trans e2⟩
   · obtain ⟨T', hT', hm'⟩ := st.toks lp T hT
@@ -784,6 +977,16 @@ theorem inv_step {name : Asset → String} {w w' : World} {op : Op} {out : Out} 
     rfl
   · rw [st.router]; exact hinv.lpNotRouter
   · rw [st.router]; exact hinv.pNotRouter
+  · -- neither contract is the actor, so no allowance entry owned by them appears (`Allow.noAllow_exec`)
+    have hpa : p ≠ actorOf op := by
+      intro e
+      have := hv.actor.1
+      rw [← e, hP] at this
+      cases this
+    have hla : lp ≠ actorOf op := fun e => lp_not_src hinv hv (Or.inl e)
+    intro t T' hT' s
+    exact ⟨Allow.noAllow_exec h hpa (fun t T hT s => (hinv.noAllow t T hT s).1) t T' hT' s,
+      Allow.noAllow_exec h hla (fun t T hT s => (hinv.noAllow t T hT s).2) t T' hT' s⟩
 
 /-! ### the theorems -/
 
